@@ -19,6 +19,10 @@ CHECKS = {
    text="TLC checks the expand/shrink/copy/validate object machine of Defs.tla (3 objects, 6 operations; WellNested, ExpandAll, ShrinkAll, NoAlias) and shows that the machine with unmaintained expansion flags (the code as found) violates it; every operation sequence TLC reaches (<=4 ops on <=2 objects quick, <=5 on <=3 thorough) is replayed on real HedString objects over 4 skeletons x 5 definition uses with the printed tree compared after every step (and column-wise through df_util); the acceptance table (1584 definition shapes) and the Def-expand variant table (264 variants: all sibling orders x 6 alterations) computed by TLC are replayed through DefinitionDict.check_for_definitions and HedString.validate",
    note="bounded op sequences; printed trees compared up to sibling order/case by an independent parser; concretisation uses HED 8.3.0",
    technique="TLA+ spec + TLC model checking; behaviour replay with per-step state comparison; TLC-computed decision tables replayed"),
+ "C12": dict(
+   text="TLC checks the context/decoration machine of Issues.tla along HedValidator.validate (SuffixOnce, FilterOnlyErrors, PhaseGate; warnings on/off) and shows the re-decorating call path (code as found) violates SuffixOnce; issue lists recorded from the string (caller's handler with the string in context, and default handler), sidecar and table entry points, each run with warnings on and off, shuffled through sort_issues and exported through replace_tag_references, are validated clause by clause by TLC (fields, offsets inside text and tag span, offsets select the quoted fragment, suffix exactly once, errors-only = error subset, stable sort order, codes unchanged by export): 600 runs quick, 6000 thorough",
+   note="texts limited to Latin-1 (TLC strings); tag span = any occurrence of the source tag's spelling in the validated text; dataset entry point exercised in C16",
+   technique="TLA+ spec + TLC model checking; TLC trace validation of recorded issue lists"),
 }
 ALL = ["C%02d" % i for i in range(1, 21)]
 m = {
